@@ -211,6 +211,11 @@ Definition live (s : st) (n : nat) : Prop := exists x, nth_error (sinks s) n = S
 Definition not_closed (x : sstate) : bool := match x with SClosed => false | _ => true end.
 (* number of underlying connections that were created and are not closed *)
 Definition live_count (s : st) : nat := length (filter not_closed (sinks s)).
+(* pool.Open() calls minus pool.Close() calls of a history *)
+Definition is_openpool (l : label) : bool := match l with OpenPool => true | _ => false end.
+Definition is_closepool (l : label) : bool := match l with ClosePool => true | _ => false end.
+Definition balance (ls : list label) : Z :=
+  (Z.of_nat (length (filter is_openpool ls)) - Z.of_nat (length (filter is_closepool ls)))%Z.
 (* the sink an observation is about *)
 Definition obs_sink (o : obs) : option nat :=
   match o with
